@@ -6,7 +6,7 @@ Require Import List NArith ZArith Bool.
 Import ListNotations.
 Require Import LV.PropTree.PropModel LV.PropTree.DocSpec LV.PropTree.PropProofs LV.PropTree.QuoteProofs
         LV.PropTree.RebuildProofs LV.PropTree.ApiProofs LV.PropTree.WfProofs LV.PropTree.CopyProofs
-        LV.PropTree.DescGrammar LV.PropTree.GrammarProofs.
+        LV.PropTree.DescGrammar LV.PropTree.GrammarProofs LV.PropTree.FrameProofs.
 
 (* For every sequence of set / delete / get / type / count / keys / get_subtree / set_subtree
    operations (including the compound "set_subtree, then set / delete on the returned anchor") the
@@ -220,6 +220,37 @@ Theorem c13_get_after_set_path (es : list expr) (n x : node) :
   /\ snd (descend_set es (fun _ => (x, tt)) n) = inr tt.
 Proof. exact (get_set_path es n x). Qed.
 Print Assumptions c13_get_after_set_path.
+
+(* frame law: a set along one path changes nothing that could be read along a path branching off it
+   (another key of the same map or another subscript of the same list, after any common prefix of key
+   and subscript steps) - for every tree, every pair of such paths, every stored node / finishing action *)
+Theorem c13_set_leaves_other_paths_unchanged {A} (es1 es2 : list expr) (fin : node -> node * A) (n v : node) :
+  diverge es1 es2 ->
+  descend_get es2 n = inr v ->
+  descend_get es2 (fst (descend_set es1 fin n)) = inr v.
+Proof. intros Hd. exact (set_frame es1 es2 Hd fin n v). Qed.
+Print Assumptions c13_set_leaves_other_paths_unchanged.
+
+(* the premises are met by a nested tree (and the set itself reads back) *)
+Theorem c13_set_leaves_other_paths_unchanged_example :
+  let n := NMap [([97%N], NList [NScalar [120%N]; NMap [([98%N], NScalar [121%N])]] 8)] in
+  let es1 := [E_MAP_ELEMENT [97%N]; E_LIST_ELEMENT 1; E_MAP_ELEMENT [99%N]] in
+  let es2 := [E_MAP_ELEMENT [97%N]; E_LIST_ELEMENT 1; E_MAP_ELEMENT [98%N]] in
+  diverge es1 es2 /\ descend_get es2 n = inr (NScalar [121%N]) /\
+  descend_get es2 (fst (descend_set es1 (fun _ => (NScalar [122%N], tt)) n)) = inr (NScalar [121%N]) /\
+  descend_get es1 (fst (descend_set es1 (fun _ => (NScalar [122%N], tt)) n)) = inr (NScalar [122%N]).
+Proof. exact set_frame_example. Qed.
+Print Assumptions c13_set_leaves_other_paths_unchanged_example.
+
+(* "the read path exists before the set" cannot be dropped: a set at [2] of a one-element list extends it
+   with nulls, so [1] reads null afterwards where it was ENOENT before (documented behaviour) *)
+Theorem c13_set_extends_list_with_nulls_example :
+  let n := NList [NScalar [97%N]] 8 in
+  diverge [E_LIST_ELEMENT 2] [E_LIST_ELEMENT 1] /\
+  descend_get [E_LIST_ELEMENT 1] n = inl ENOENT /\
+  descend_get [E_LIST_ELEMENT 1] (fst (descend_set [E_LIST_ELEMENT 2] (fun _ => (NScalar [98%N], tt)) n)) = inr NNull.
+Proof. exact frame_needs_existing. Qed.
+Print Assumptions c13_set_extends_list_with_nulls_example.
 
 (* delete removes the entry and shifts the higher indices down by one *)
 Theorem c13_delete_shifts (i : nat) (vec : list node) (al j : nat) :
